@@ -497,8 +497,13 @@ def c12_vectors(pid, tier, rng, tmp):
         while not nodup(own):       # an accepted configuration never repeats a prefix or route
             own = rand_ra()
         vecs.append({"kind": "c12", "id": "c12-self-%05d" % j, "in": {"own": own, "theirs": own, "wire": True, "selfwire": True}})
-    # spec-level lemmas over a small domain
-    return [], vecs
+    # spec-level lemmas of the requirement over every pair of RAs from a small domain
+    cfg = os.path.join(tmp, "VerifyMC.cfg")
+    _cfg(cfg, "MSpec", dict(Small="FALSE" if thorough else "TRUE"), "Reflexive SymEmpty AbsentSide Bounded")
+    r = vf.tlc("VerifyMC", cfg, workdir=vf.mktmp("vf-vmc-"), timeout=3000, heap="8g")
+    mc = {"config": "VerifyMC Small=%s" % (not thorough), "states": r["states"], "transitions": r["generated"], "ok": r["ok"],
+          "violation": r["violation"], "wall_s": round(r["wall_s"], 1)}
+    return [mc], vecs
 
 
 def c12(pid, tier, replay):
@@ -511,7 +516,7 @@ def c12(pid, tier, replay):
                      "non-trivial = own and received differ",
                      ["the 'own' RA is produced by a config.Interface whose plugin list is a harness plugin appending the scripted options",
                       "route prefixes use byte-aligned lengths (the pinned ndp decoder drops a trailing partial byte)",
-                      "TLC evaluates Problems(own, theirs) (spec/Verify.tla) on the RAs as the code saw them; no separate exhaustive model run: states/transitions count the validation runs"],
+                      "TLC evaluates Problems(own, theirs) (spec/Verify.tla) on the RAs as the code saw them; the model run (VerifyMC) checks lemmas of the requirement itself (self-consistency, symmetric emptiness, absent side) over every pair of a small domain"],
                      pkgs=COR_PKGS12, pkgdir="internal/corerad", testname="^TestVF_Verify$", module="VerifyTrace")
 
 
